@@ -93,6 +93,8 @@ def gen_panel(rng, models=MODELS, mmax=14):
     if rng.random() < 0.3:
         # per-ply thicknesses (repeated angles get different thicknesses)
         d['plyts'] = [rng.choice([0.5e-4, 1.25e-4, 2e-4, 3e-4]) for _ in d['stack']]
+    # documented switch: the 16/26 coupling terms of the laminate matrix are set to zero for everything the panel computes
+    d['force_ortho'] = rng.random() < 0.12
     return d
 
 
@@ -104,6 +106,7 @@ def generate(seed, batch):
                  'scale': 10 ** rng.choice([rng.uniform(-5, -1), rng.uniform(-5, -1), rng.uniform(-13, -5), rng.uniform(-1, 2)]),
                  'layout': rng.choice(['C', 'C', 'strided', 'column', 'float32', 'list', 'readonly'])}
     scen['NLterms'] = rng.random() < 0.5
+    scen['nl_type'] = rng.choice(['bool', 'bool', 'npbool', 'int', 'npint'])
     scen['reuse_buffer'] = rng.random() < 0.3
     scen['plot_between'] = rng.random() < 0.25
     scen['perm_seed'] = rng.getrandbits(32)
@@ -121,6 +124,7 @@ def generate(seed, batch):
         scen['host'] = 'assembly'
         np_ = rng.randint(2, 4)
         base = gen_panel(rng, models=['plate_clt_donnell_bardell', 'cpanel_clt_donnell_bardell'], mmax=7)
+        base['force_ortho'] = False
         panels = []
         for i in range(np_):
             d = dict(base)
@@ -259,6 +263,19 @@ def shrink_candidates(scen):
 LAMPROP = (142.5e9, 8.7e9, 0.28, 5.1e9, 5.1e9, 5.1e9)
 
 
+def nl_arg(scen, nl):
+    """the NLterms switch the way it comes out of user code: Python bool, numpy bool, 0/1, numpy integer"""
+    import numpy as np
+    t = scen.get('nl_type', 'bool')
+    if t == 'npbool':
+        return np.bool_(nl)
+    if t == 'int':
+        return int(nl)
+    if t == 'npint':
+        return np.int64(int(nl))
+    return bool(nl)
+
+
 def build_panel(d):
     from compmech.panel import Panel
     p = Panel()
@@ -281,6 +298,8 @@ def build_panel(d):
         setattr(p, f, v)
     if 'group' in d:
         p.group = d['group']
+    if d.get('force_ortho'):
+        p.force_orthotropic_laminate = True
     return p
 
 
@@ -621,6 +640,11 @@ def execute(scen):
             from .refmodels import clt_abd
             plyts_ = list(d['plyts']) if d.get('plyts') else [d['plyt']] * len(d['stack'])
             F = clt_abd(d['stack'], plyts_, [LAMPROP] * len(d['stack']), d.get('offset', 0.0)) if p.F is not None else None
+            if F is not None and d.get('force_ortho'):
+                F = np.array(F, dtype=float)
+                for i_, j_ in ((0, 2), (1, 2), (0, 5), (1, 5), (3, 2), (4, 2), (3, 5), (4, 5)):
+                    F[i_, j_] = F[j_, i_] = 0.0
+                bump(res['probes'], 'forced_orthotropic_laminate')
             if F is not None and np.abs(F - np.array(p.F, dtype=float)).max() > 1e-10 * np.abs(F).max():
                 bump(res['probes'], 'package_laminate_matrix_differs_from_CLT')
             Fgiven = None
@@ -641,8 +665,8 @@ def execute(scen):
                     out = p.uvw(c_, **kw)
                     return dict(zip(UVW, out))
                 if q == 'strain':
-                    return p.strain(c_, NLterms=nl, **kw)
-                return p.stress(c_, F=Fgiven, NLterms=nl, **kw)
+                    return p.strain(c_, NLterms=nl_arg(scen, nl), **kw)
+                return p.stress(c_, F=Fgiven, NLterms=nl_arg(scen, nl), **kw)
 
             def set_workers(w):
                 p.out_num_cores = w
@@ -720,6 +744,10 @@ def execute(scen):
                 p.plyt = rl['plyt']
                 p.offset = rl['offset']
                 Fnew = clt_abd(p.stack, p.plyts, p.laminaprops, p.offset)
+                if d.get('force_ortho'):
+                    Fnew = np.array(Fnew, dtype=float)
+                    for i_, j_ in ((0, 2), (1, 2), (0, 5), (1, 5), (3, 2), (4, 2), (3, 5), (4, 5)):
+                        Fnew[i_, j_] = Fnew[j_, i_] = 0.0
                 p.out_num_cores = scen['workers'][0]
                 got = caller('stress', c, gx, gy, scen['NLterms']) if Fgiven is None else None
                 if got is not None:
@@ -764,9 +792,9 @@ def execute(scen):
                     if q == 'uvw':
                         got = asm.uvw(c, group, gridx=pts['gridx'], gridy=pts['gridy'])
                     elif q == 'strain':
-                        got = asm.strain(c, group, gridx=pts['gridx'], gridy=pts['gridy'], NLterms=nl)
+                        got = asm.strain(c, group, gridx=pts['gridx'], gridy=pts['gridy'], NLterms=nl_arg(scen, nl))
                     else:
-                        got = asm.stress(c, group, gridx=pts['gridx'], gridy=pts['gridy'], NLterms=nl)
+                        got = asm.stress(c, group, gridx=pts['gridx'], gridy=pts['gridy'], NLterms=nl_arg(scen, nl))
                     res['steps'] += 1
                     if len(got[names[0]]) != len(members):
                         raise Violation('G5-slices', {'why': 'number of result blocks differs from the number of panels in the group',
